@@ -77,7 +77,7 @@ PROPS = {
             'lens': [(['r', 'o', 'q.rw', 'z.iw', 'z.streams.iw'], S('call:ack')), (['q.rw', 'z.iw', 'z.streams.iw'], S('frame:DATA', 'frame:SET'))]},
     'C06': {'scenarios': scen('LifeS LifeC', GENERIC + ['P_C06_StreamStatesAreRfcStates']),
             'lens': [(['r', 'o', 'e'] + STATE_FSM, ANY)]},
-    'C07': {'scenarios': scen('LifeS LifeC Pair1 PushC', ['P_C07_EventsFitRole']),
+    'C07': {'scenarios': scen('LifeS LifeC Pair1 PushC', ['P_C07_EventsFitRole', 'P_C07_EventGrammar']),
             'lens': [(['e'] + STATE_FSM, S('recv', 'dlv')), (['r'], S('frame:HEADERS', 'frame:DATA'))]},
     'C08': {'scenarios': scen('LifeS LifeC MiscC MiscS PushS', ['P_C08_RoleRestrictedSends', 'RaisingCallEmitsNothing']),
             'lens': [(['r', 'o'] + STATE_FSM, S('call:hdr', 'call:data', 'call:end', 'call:push', 'call:alt', 'call:prio')), (['z.conn'], ANY)]},
@@ -99,7 +99,7 @@ PROPS = {
             'lens': [(['r', 'e', 'o', 'z.streams.ecl', 'z.streams.acl', 'z.streams.meth'], S('frame:HEADERS', 'frame:DATA'))]},
     'C17': {'scenarios': scen('CloseS HdrInS HdrInC LifeC RawS RawC', ['OnlyKnownExceptions']),
             'lens': [(['r'], S('recv', 'dlv'))]},
-    'C18': {'scenarios': scen('CloseS LifeS SetS HdrInS FrameS RawS RawC', ['P_C18_OneGoAwayWithCode']),
+    'C18': {'scenarios': scen('CloseS LifeS SetS HdrInS FrameS RawS RawC', ['P_C18_OneGoAwayWithCode', 'P_C18_SizeViolationsAreFrameSizeErrors']),
             'lens': [(['r', 'o'], S('recv', 'dlv'))]},
     'C19': {'scenarios': scen('CloseS MiscC', ['P_C19_ClosedStaysQuiet']),
             'lens': [(['r', 'o', 'z.conn'], ANY)]},
@@ -261,6 +261,7 @@ FOOTPRINT = {
     'settings_shrink_stalls_window': ['o', 'z.streams.iw', 'z.streams', 'q.rw'],
     'content_length_rule_differs': ['*'],
     'stream_id_above_max': ['*'],
+    'settings_ack_length_code': ['r', 'o'],
 }
 
 
